@@ -847,6 +847,9 @@ impl Monitor for RcMonitor {
                 sh.cell_word.remove(&addr);
             }
             site::ARC_CAS | site::ARC_CAS_WEAK | site::ARC_CAS_TAG => {
+                if evdebug() {
+                    eprintln!("PRE seq={} t{} cas site={} cell={:#x} cur={:#x} exp={:#x} des={:#x}", sim().seq, tid, site_id, addr, read_word(addr), a, b);
+                }
                 sh.cell_word.remove(&addr);
                 // predicted outcome: the CAS succeeds iff the cell holds exactly `expected`
                 let cur = read_word(addr);
